@@ -12,7 +12,8 @@
    the following line takes over. *)
 From Coq Require Import ZArith List Bool Lia.
 Import ListNotations.
-From Urwid Require Import PyBase TextLayout TextLayoutFacts TextLayoutProofs TextLayoutTop TextLayoutNatural.
+From Urwid Require Import PyBase Utf8 TextLayout TextLayoutBytes TextLayoutFacts TextLayoutProofs TextLayoutTop TextLayoutNatural TextLayoutClip
+     TextLayoutBytesSim TextLayoutBytesTop.
 Open Scope Z_scope.
 
 Definition width_fn (cw : Z -> Z) : Prop := (forall c, 0 <= cw c <= 2) /\ cw SP = 1.
@@ -179,37 +180,18 @@ Proof.
 Qed.
 Print Assumptions empty_line_only_if_cannot_display.
 
-(* --- rendering (trim_line + LayoutSegment + apply_text_layout + TextCanvas width check) never raises,
-       produces as many rows as rows() reports, and every row is exactly [width] columns wide
-       (= "fits", for clip/ellipsis judged after trimming).
-       FULL statement (not proved in this generality): --- *)
-Definition render_total_full : Prop :=
+(* --- rendering (trim_line + LayoutSegment + subseg + calc_trim_text + apply_text_layout + the TextCanvas
+       width check) never raises, produces as many rows as rows() reports, and every row is exactly
+       [width] columns wide (= "every displayed line fits", for clip/ellipsis judged after trimming).
+       All four wrap modes and all three alignments: this includes the over-long clip lines that a
+       negative center/right shift makes trim_line cut on both sides. --- *)
+Theorem render_total :
   forall cw t width align wrap ell, width_fn cw -> 1 <= width ->
     exists rows, text_render cw t width align wrap ell = LOk rows /\
                  Forall (fun r => sumw cw r = width) rows /\
                  text_rows cw t width align wrap ell = LOk (zlen rows).
-
-(* PROVED: any and space (every alignment); ellipsis whenever an ellipsis fits (every alignment);
-   clip and ellipsis with left alignment.  MISSING: clip (and ellipsis at width 1) with center/right
-   alignment when a line is wider than the width - there trim_line cuts on both sides through
-   calc_trim_text's start_col > 0 branch, which is modelled and correspondence-checked exhaustively on
-   short strings but whose padding arithmetic is not proved here. *)
-Theorem render_total_partial_wrap :
-  forall cw t width align wrap ell, width_fn cw -> 1 <= width -> is_wrap wrap ->
-    exists rows, text_render cw t width align wrap ell = LOk rows /\
-                 Forall (fun r => sumw cw r = width) rows /\
-                 text_rows cw t width align wrap ell = LOk (zlen rows).
-Proof. intros cw t width align wrap ell [R S] Hw Hm. exact (wrap_render_total cw R S t width Hw align ell wrap Hm). Qed.
-Print Assumptions render_total_partial_wrap.
-
-Theorem render_total_partial_trim :
-  forall cw t width align wrap ell, width_fn cw -> 1 <= width -> is_trim wrap ->
-    (wrap = WEllipsis /\ sumw cw (trim_ell cw width ell) <> 0) \/ align = AlLeft ->
-    exists rows, text_render cw t width align wrap ell = LOk rows /\
-                 Forall (fun r => sumw cw r = width) rows /\
-                 text_rows cw t width align wrap ell = LOk (zlen rows).
-Proof. intros cw t width align wrap ell [R S] Hw Hm. exact (trim_render_total cw R S t width Hw align ell wrap Hm). Qed.
-Print Assumptions render_total_partial_trim.
+Proof. intros cw t width align wrap ell [R S] Hw. exact (render_total cw t width align wrap ell R S Hw). Qed.
+Print Assumptions render_total.
 
 (* clip, left aligned: the rendered row of an over-long paragraph [a, nl) is its longest prefix that
    fits (nothing when that prefix has no visible character), padded by one space when a double-width
@@ -225,6 +207,81 @@ Theorem clip_left_row_is_longest_prefix :
       sumw cw ((if sumw cw (slice t a p) =? 0 then [] else slice t a p) ++ spaces pr) = width.
 Proof. intros cw t width a nl [R S] Hw. exact (render_line_clip_left cw R S t width Hw a nl). Qed.
 Print Assumptions clip_left_row_is_longest_prefix.
+
+(* ====================================================================================== *)
+(* BYTES text under the utf8 byte encoding (Model/TextLayoutBytes.v: the layout driven by the byte-mode
+   functions of str_util - decode_one walk, move_prev_char / move_next_char over continuation bytes,
+   calc_trim_text - with BYTE offsets).  For every str s of Unicode scalar values, every ellipsis string,
+   width >= 1, wrap mode, alignment and every wcwidth function [wcw] with wcw c <= 2 and a 1-column
+   space: the layout of the utf-8 encoding of s is the image of the str layout of s under the boundary
+   map [boff s] (character index -> byte offset).  [u8_cw wcw] is get_char_width.  The byte-mode
+   primitives of the model are proved equal (Proofs/TextLayoutBytesEq.v) to C11's model of str_util,
+   whose decode_one arithmetic is re-translated from the source. *)
+Definition wcw_ok (wcw : Z -> Z) : Prop := (forall c, wcw c <= 2) /\ u8_cw wcw SP = 1.
+Definition scalars (s : list Z) : Prop := Forall (fun c => scalar c = true) s.
+
+Theorem bytes_layout_is_image :
+  forall wcw s width align wrap ell, wcw_ok wcw -> scalars s -> scalars ell -> 1 <= width ->
+    layout_b wcw (encs s) width align wrap ell
+    = map_result (boff s) (layout (u8_cw wcw) s width align wrap ell).
+Proof. intros wcw s width align wrap ell [Hw Hsp] Hs He Hwd. exact (layout_bytes_is_image wcw s width align wrap ell Hw Hsp Hs He Hwd). Qed.
+Print Assumptions bytes_layout_is_image.
+
+(* order / nothing twice, in byte offsets *)
+Theorem bytes_layout_order :
+  forall wcw s width align wrap ell Lb, wcw_ok wcw -> scalars s -> scalars ell -> 1 <= width ->
+    layout_b wcw (encs s) width align wrap ell = Ok Lb -> ranges_sorted 0 (shown_ranges Lb) (zlen (encs s)).
+Proof. intros wcw s width align wrap ell Lb [Hw Hsp] Hs He Hwd. exact (bytes_layout_order wcw Hw Hsp s Hs ell He width Hwd align wrap Lb). Qed.
+Print Assumptions bytes_layout_order.
+
+(* fits: a text segment covers whole characters and claims exactly the columns that the byte-mode
+   calc_width reports for its byte range *)
+Theorem bytes_layout_fits :
+  forall wcw s width align wrap ell Lb ln, wcw_ok wcw -> scalars s -> scalars ell -> 1 <= width -> is_wrap wrap ->
+    layout_b wcw (encs s) width align wrap ell = Ok Lb -> In ln Lb ->
+    0 <= line_width ln <= width /\
+    forall sc o e, In (SText sc o e) ln ->
+      exists o' e', o = boff s o' /\ e = boff s e' /\ 0 <= o' < e' /\ e' <= zlen s /\
+                    sc = sumw (u8_cw wcw) (slice s o' e') /\ calc_width_b wcw (encs s) o e = LOk sc.
+Proof.
+  intros wcw s width align wrap ell Lb ln [Hw Hsp] Hs He Hwd Hm E.
+  exact (bytes_layout_fits wcw Hw Hsp s Hs ell He width Hwd align wrap Lb Hm E ln).
+Qed.
+Print Assumptions bytes_layout_fits.
+
+(* omission: every byte offset lies in a character k; that character is shown (and then the offset lies in
+   the image of its range) or is omitted for one of the reasons of the str theorems *)
+Theorem bytes_layout_omits_only_wrap :
+  forall wcw s width align wrap ell Lb, wcw_ok wcw -> scalars s -> scalars ell -> 1 <= width -> is_wrap wrap ->
+    layout_b wcw (encs s) width align wrap ell = Ok Lb -> Lb <> [[]] ->
+    exists L, layout (u8_cw wcw) s width align wrap ell = Ok L /\ Lb = map_layout (boff s) L /\
+      forall j, 0 <= j < zlen (encs s) -> exists k, 0 <= k < zlen s /\ boff s k <= j < boff s (k + 1) /\
+        (in_ranges j (shown_ranges Lb) \/ omit_ok (u8_cw wcw) s wrap L k).
+Proof.
+  intros wcw s width align wrap ell Lb [Hw Hsp] Hs He Hwd.
+  exact (bytes_layout_omits_only_wrap wcw Hw Hsp s Hs ell He width Hwd align wrap Lb).
+Qed.
+Print Assumptions bytes_layout_omits_only_wrap.
+
+Theorem bytes_layout_omits_only_trim :
+  forall wcw s width align wrap ell Lb, wcw_ok wcw -> scalars s -> scalars ell -> 1 <= width -> is_trim wrap ->
+    layout_b wcw (encs s) width align wrap ell = Ok Lb ->
+    forall j, 0 <= j < zlen (encs s) -> exists k, 0 <= k < zlen s /\ boff s k <= j < boff s (k + 1) /\
+      (in_ranges j (shown_ranges Lb) \/ omit_ok_trim (u8_cw wcw) s width wrap ell k).
+Proof.
+  intros wcw s width align wrap ell Lb [Hw Hsp] Hs He Hwd.
+  exact (bytes_layout_omits_only_trim wcw Hw Hsp s Hs ell He width Hwd align wrap Lb).
+Qed.
+Print Assumptions bytes_layout_omits_only_trim.
+
+Theorem bytes_rows_eq :
+  forall wcw s width align wrap ell, wcw_ok wcw -> scalars s -> scalars ell -> 1 <= width ->
+    text_rows_b wcw (encs s) width align wrap ell = text_rows (u8_cw wcw) s width align wrap ell.
+Proof.
+  intros wcw s width align wrap ell [Hw Hsp] Hs He Hwd.
+  exact (bytes_rows_eq wcw Hw Hsp s Hs ell He width Hwd align wrap).
+Qed.
+Print Assumptions bytes_rows_eq.
 
 (* ---------- non-vacuity: the hypotheses are satisfiable and the model computes ---------- *)
 Definition cw_ex (c : Z) : Z :=
@@ -267,3 +324,17 @@ Proof.
   right; left. split; [reflexivity|]. split; [reflexivity|].
   exists [SText 2 0 2; SPad 0 2]. split; [left; reflexivity | reflexivity].
 Qed.
+
+(* the bytes model on "a<U+4E16>b" (5 bytes) at 2 columns: offsets are byte offsets *)
+Definition wcw_ex (c : Z) : Z := if c =? 19990 then 2 else if c =? 769 then 0 else if c =? 10 then (-1) else 1.
+
+Example wcw_ex_ok : wcw_ok wcw_ex.
+Proof.
+  split; [|reflexivity]. intros c. unfold wcw_ex.
+  destruct (c =? 19990); [lia|]. destruct (c =? 769); [lia|]. destruct (c =? 10); lia.
+Qed.
+
+Example bytes_layout_runs :
+  layout_b wcw_ex (encs [97; 19990; 98]) 2 AlLeft WAny [8230]
+  = Ok [[SText 1 0 1]; [SText 2 1 4]; [SText 1 4 5; SPad 0 5]].
+Proof. vm_compute. reflexivity. Qed.
